@@ -80,7 +80,7 @@ def observe(c, cfg: dict) -> dict:
     if cfg["kind"] == "disk" and cfg["lsize"] == 0:
         o["vals"] = []
     else:
-        o["vals"] = sorted([k, v] for k, v in dict(c.cache).items())
+        o["vals"] = sorted([k, 0 if v is None else v] for k, v in dict(c.cache).items())
     if cfg["kind"] == "hybrid":
         o["cnts"] = sorted([k, v] for k, v in dict(c.access_counts).items())
         o["durs"] = sorted([k, int(v)] for k, v in dict(c.computation_durations).items())
@@ -103,9 +103,9 @@ def replay_ops(cfg: dict, ops: list[dict], gap: float = 0.0, reuse=None) -> dict
             try:
                 if o["op"] == "put":
                     if cfg["kind"] == "hybrid":
-                        r = c.put(o["k"], o["v"], float(o["d"]))
+                        r = c.put(o["k"], o["v"] or None, float(o["d"]))     # v = 0 (NoneV) is Python's None
                     else:
-                        r = c.put(o["k"], o["v"])
+                        r = c.put(o["k"], o["v"] or None)
                         if cfg["kind"] == "disk" and gap:
                             time.sleep(gap)
                 elif o["op"] == "get":
@@ -174,7 +174,7 @@ def run_many(jobs: list[tuple[dict, list[dict]]], gap: float, shared: bool = Fal
 # ------------------------------------------------------------------------------------------------
 MC_CFG = """SPECIFICATION Spec
 CONSTANTS Kind = "{kind}" Max = {max} LSize = {lsize} AW = {aw} DW = {dw} Keys = {keys} Durs = {durs}
-          Depth = {depth} Export = {export} WithReopen = {reopen}
+          Depth = {depth} Export = {export} WithReopen = {reopen} WithNone = {none}
 INVARIANT InvWellFormed InvLenBounded InvPutBounds InvGetIsLastPut InvPresentWasPut Emit
 """
 
@@ -187,7 +187,7 @@ def enumerate_sequences(ctx: Ctx, cfg: dict, depth: int, durs: list[int], reopen
     wd = ctx.workdir(f"mc_{cfg['kind']}_{cfg['max']}_{cfg['lsize']}_{cfg['aw']}{cfg['dw']}")
     text = MC_CFG.format(kind=cfg["kind"], max=cfg["max"], lsize=cfg["lsize"], aw=cfg["aw"], dw=cfg["dw"],
                          keys=tla_set(cfg["keys"]), durs=tla_set(durs), depth=depth, export="TRUE",
-                         reopen="TRUE" if reopen else "FALSE")
+                         reopen="TRUE" if reopen else "FALSE", none="TRUE" if cfg.get("none") else "FALSE")
     r = run_tlc("MC_Cache", text, wd, workers=8, coverage=False, allow_violation=False)
     ctx.add_tlc(r, f"MC_Cache {cfg['kind']} max={cfg['max']} depth={depth}")
     seqs = {}
@@ -266,7 +266,7 @@ def random_ops(rng: random.Random, cfg: dict, n: int) -> list[dict]:
         k = rng.choice(cfg["keys"])
         if x < 0.5:
             v += 1
-            ops.append({"op": "put", "k": k, "v": v, "d": rng.choice(cfg["durs"])})
+            ops.append({"op": "put", "k": k, "v": 0 if rng.random() < 0.1 else v, "d": rng.choice(cfg["durs"])})   # 0 = None
         elif x < 0.85:
             ops.append({"op": "get", "k": k})
         elif x < 0.9:
@@ -299,16 +299,17 @@ def run(ctx: Ctx) -> None:
     configs: list[tuple[dict, int, list[int], bool]] = []
     for m in (1, 2, 3):
         # thorough: depth 6 (117 649 sequences) for max_size 2, depth 5 for the others (memory: every history is kept)
-        configs.append(({"kind": "lru", "max": m, "lsize": 0, "aw": 1, "dw": 1, "keys": keys3},
+        configs.append(({"kind": "lru", "max": m, "lsize": 0, "aw": 1, "dw": 1, "keys": keys3, "none": (m == 2) if quick else (m == 3)},
                         depth if (quick or m == 2) else depth - 1, [1], False))
     for m in (1, 2, 3):
-        configs.append(({"kind": "hybrid", "max": m, "lsize": 0, "aw": 1, "dw": 1, "keys": keys3},
+        configs.append(({"kind": "hybrid", "max": m, "lsize": 0, "aw": 1, "dw": 1, "keys": keys3, "none": m == 2 and quick},
                         depth - 1 if quick else 4, [1, 2] if quick else [0, 1, 3], False))
     if not quick:
         configs.append(({"kind": "hybrid", "max": 2, "lsize": 0, "aw": 1, "dw": 3, "keys": keys3}, depth - 1, [1, 2], False))
-    configs.append(({"kind": "simple", "max": 1, "lsize": 0, "aw": 1, "dw": 1, "keys": keys3}, depth, [1], False))
+        configs.append(({"kind": "hybrid", "max": 2, "lsize": 0, "aw": 3, "dw": 1, "keys": keys3, "none": True}, 3, [1, 2], False))
+    configs.append(({"kind": "simple", "max": 1, "lsize": 0, "aw": 1, "dw": 1, "keys": keys3, "none": True}, depth, [1], False))
     for m, ls in ((1, 0), (2, 0), (2, 2), (2, 1)) if quick else ((1, 0), (2, 0), (3, 0), (2, 2), (2, 1), (3, 1)):
-        configs.append(({"kind": "disk", "max": m, "lsize": ls, "aw": 1, "dw": 1, "keys": keys3},
+        configs.append(({"kind": "disk", "max": m, "lsize": ls, "aw": 1, "dw": 1, "keys": keys3, "none": (m, ls) == (2, 2)},
                         3 if quick else 4, [1], True))
 
     all_traces: list[dict] = []
